@@ -81,6 +81,16 @@ class S:
     y: Optional[str] = field(default=None, metadata={"type": "Element", "sequence": 1})
 '''
 INST_SEQTOK = {"__cls__": "S", "fields": {"x": [{"__p__": "str", "v": "ab"}, {"__p__": "str", "v": "cd"}], "y": {"__p__": "str", "v": "q"}}}
+WITNESS_QN = G.HEADER + '''
+@dataclass
+class Q:
+    class Meta:
+        namespace = "urn:b"
+    v: Optional[QName] = field(default=None, metadata={"type": "Element"})
+    w: list[QName] = field(default_factory=list, metadata={"type": "Element"})
+'''
+INST_QN = {"__cls__": "Q", "fields": {"v": {"__p__": "QName", "v": "local"},
+                                      "w": [{"__p__": "QName", "v": "{urn:x}a"}, {"__p__": "QName", "v": "{urn:b}b"}]}}
 WITNESS_JOBS = [
     {"src": WITNESS_RICH, "name": "w_rich", "root": "Root", "instances": [INST_RICH], "cases": [
         {"i": 0, "writer": "native", "handler": "native", "config": {"indent": "  "}, "ns_map": {"p": "urn:a"}, "strict": True},
@@ -89,12 +99,15 @@ WITNESS_JOBS = [
         {"i": 0, "writer": "native", "handler": "native", "config": {}, "ns_map": None, "strict": True}]},
     {"src": WITNESS_SEQTOK, "name": "w_seqtok", "root": "S", "instances": [INST_SEQTOK], "cases": [
         {"i": 0, "writer": "native", "handler": "native", "config": {}, "ns_map": None, "strict": True}]},
+    {"src": WITNESS_QN, "name": "w_qn", "root": "Q", "instances": [INST_QN], "cases": [
+        {"i": 0, "writer": "lxml", "handler": "lxml", "config": {"indent": "  "}, "ns_map": None, "strict": True},
+        {"i": 0, "writer": "native", "handler": "native", "config": {}, "ns_map": {"": "urn:a"}, "strict": True}]},
 ]
 WITNESS_PATH = os.path.join(COQ, "Proofs", "RoundtripWitness.v")
 
 
 def witness_text(out):
-    rich, nil, seqtok = out["jobs"]
+    rich, nil, seqtok, qn = out["jobs"]
 
     def D(name, ty, term):
         return f"Definition {name} : {ty} :=\n  {term}.\n"
@@ -134,6 +147,17 @@ Import ListNotations.
     txt += D("root_seqtok", "cls", seqtok["root"])
     txt += D("o_seqtok", "value", seqtok["cases"][0]["value"])
     txt += D("pevs_seqtok", "list pevent", seqtok["cases"][0]["pevents"])
+    txt += '''
+(* model `qn`: Q.v : Optional[QName], Q.w : list[QName], class namespace urn:b; instance
+   Q(v=QName('local'), w=[QName('{urn:x}a'), QName('{urn:b}b')]) *)
+'''
+    txt += D("u_qn", "universe", qn["universe"])
+    txt += D("root_qn", "cls", qn["root"])
+    txt += D("o_qn", "value", qn["cases"][0]["value"])
+    txt += "(* LxmlEventWriter, indent  ->  LxmlEventHandler *)\n"
+    txt += D("pevs_qn", "list pevent", qn["cases"][0]["pevents"])
+    txt += "(* XmlEventWriter with the user prefix map {None: urn:a}  ->  XmlEventHandler (known finding C01-F3) *)\n"
+    txt += D("pevs_qn_default", "list pevent", qn["cases"][1]["pevents"])
     return txt
 
 
@@ -164,6 +188,11 @@ def check_witness(ck):
                    {"cases": out["jobs"][0]["cases"]})
     if out["jobs"][1]["cases"][0].get("equal"):
         ck.notes.append("witness of finding C01-F1 (nil conflation) round-trips now: the nillable guard clause can go")
+    if not out["jobs"][3]["cases"][0].get("equal"):
+        ck.failure("guard-oracle", "the witness instance of model `qn` (QName element values, inside the guards) does not round-trip on the real code",
+                   {"cases": out["jobs"][3]["cases"]})
+    if out["jobs"][3]["cases"][1].get("equal"):
+        ck.notes.append("witness of finding C01-F3 (QName 'local' under a user default namespace) round-trips now")
     if out["jobs"][2]["cases"][0].get("equal"):
         ck.notes.append("witness of finding C01-F7 (token list in a sequence group) round-trips now: the clause of seq_member can go")
 
@@ -184,6 +213,7 @@ GUARD_PREDS = {
     "wf_model": "fun k => negb (Spec.Fits.wf_model (rc_universe k) (rc_cls k))",
     "in_guard_sequence": "fun k => negb (in_guard_w k && uses_sequence (rc_universe k))",
     "uses_sequence": "fun k => negb (uses_sequence (rc_universe k))",
+    "in_guard_qname": "fun k => negb (in_guard_w k && uses_qname k)",
     "guard-oracle": "oracle_in_guard",
     "corr-generate-in-guard": "fun k => negb (in_guard_w k) || gen_agree k",
     "corr-parse-in-guard": "fun k => negb (in_guard_w k) || parse_agree k",
@@ -229,6 +259,7 @@ def guard_layer(ck, jobs, stats):
     stats["guard_wf_model"] = len(bad["wf_model"])
     stats["guard_cases_with_sequence_group"] = len(bad["uses_sequence"])
     stats["guard_inside_with_sequence_group"] = len(bad["in_guard_sequence"])
+    stats["guard_inside_with_qname_values"] = len(bad["in_guard_qname"])
     stats["guard_inside_share"] = round(len(inside) / max(1, len(terms)), 3)
     stats["guard_skipped"] = skipped
     for cls in ("guard-oracle", "corr-generate-in-guard", "corr-parse-in-guard", "guard-theorem-instance",
